@@ -34,6 +34,7 @@ except ImportError:
 
 from pydantic import Field, PositiveFloat, ConfigDict
 
+import processscheduler.base
 from processscheduler.base import BaseModelWithJson
 from processscheduler.indicator import IndicatorFromMathExpression
 from processscheduler.objective import Objective
@@ -111,6 +112,7 @@ class SchedulingSolver(BaseModelWithJson):
     def __init__(self, **data) -> None:
         super().__init__(**data)
         self._objective = None  # the list of all objectives defined in this problem
+        self._equivalent_indicator = None  # weighted sum of several objectives, if any
         self._model = None  # no solution until the problem is solved
         self._map_boolrefs_to_constraints = {}
         self._initialized = False
@@ -444,7 +446,15 @@ class SchedulingSolver(BaseModelWithJson):
             target=equivalent_indicator,
             kind=obj.kind,
         )
+        # both objects were registered in the active problem by their constructors, but
+        # they belong to this solver: left in the problem, they make the next
+        # initialization (of this solver or of another one) fail, and a later solver
+        # would take the weighted sum for one more objective of the problem
+        registered_in = processscheduler.base.active_problem
+        registered_in.indicators.pop(equivalent_indicator.name, None)
+        registered_in.objectives.pop(equivalent_objective.name, None)
         self._objective = equivalent_objective
+        self._equivalent_indicator = equivalent_indicator
         self.append_z3_assertion(equivalent_indicator.get_z3_assertions())
         return equivalent_objective, equivalent_indicator
 
@@ -642,7 +652,11 @@ class SchedulingSolver(BaseModelWithJson):
 
             solution.add_buffer_solution(new_buffer_solution)
         # process indicators
-        for indicator in self.problem.indicators.values():
+        indicators = list(self.problem.indicators.values())
+        if self._equivalent_indicator is not None:
+            # the weighted sum optimized by this solver is reported as well
+            indicators.append(self._equivalent_indicator)
+        for indicator in indicators:
             indicator_name = indicator.name
             indicator_value = z3_sol[indicator._indicator_variable].as_long()
             solution.add_indicator_solution(indicator_name, indicator_value)
